@@ -538,28 +538,35 @@ class Spec:
         lo_f, hi_f = (1.0 - o.eps) * prev_f, (1.0 + o.eps) * prev_f
         o.avg_f = new_f
         fire_f = o.k >= w and lo_f < new_f < hi_f
+        # the thresholds as the code rounds them, around the average whatever its sign (F481 repaired: swapped for a
+        # negative average); only used to recognise decisions that hinge on rounding, never as the demand
+        sw_lo, sw_hi = (hi_f, lo_f) if prev_f < 0 else (lo_f, hi_f)
+        fire_sw_f = o.k >= w and sw_lo < new_f < sw_hi
         fire = fire_f
+        o.scale = max(getattr(o, "scale", 0.0), abs(c) if math.isfinite(c) else float("inf"))
         if o.exactable and math.isfinite(c) and math.isfinite(o.eps):
             prev_q = o.avg_q
             new_q = ((m - 1) * prev_q + Fraction(c)) / m
             e = Fraction(o.eps)
-            fire_q = o.k >= w and (1 - e) * prev_q < new_q < (1 + e) * prev_q
-            # the property's own words: "the moving average changed by less than the relative threshold".  For a
-            # non-negative previous average this is the band test above (`costConv_relative_partial`); for a negative
-            # one the band is empty and the two part (finding F481, `costConv_relative_fails`)
-            fire_rel = o.k >= w and abs(new_q - prev_q) < e * abs(prev_q)
+            # the property's own words: "the moving average changed by less than the relative threshold"
+            # (`FiresAtRel`; for a non-negative previous average it is the coded band test, `costConv_relative_partial`)
+            change, thr = abs(new_q - prev_q), e * abs(prev_q)
+            fire_rel = o.k >= w and change < thr
             o.avg_q = new_q
-            if fire_rel != fire_q:
+            fire = fire_rel
+            if prev_q < 0 and fire_rel and not o.term:
                 self.neg_avg_decisions = getattr(self, "neg_avg_decisions", 0) + 1
-                if not o.term:
-                    o.neg_diverged = True
-                fire = fire_rel
-                fire_f = fire_rel
-            elif fire_q != fire_f:
-                # the decision hinges on rounding: from here on the exact and the rounded averages
-                # may part; follow the rounded ones (the code computes in doubles) and say so
-                self.rounding_sensitive += 1
-                o.exactable = False
+                o.neg_diverged = True         # classification only: a firing on a negative average (F481's territory)
+            if fire_rel != fire_sw_f:
+                scale = max(abs(prev_q), abs(new_q), Fraction(o.scale) if math.isfinite(o.scale) else Fraction(10) ** 400)
+                if abs(change - thr) <= Fraction(1, 10 ** 12) * scale:
+                    # the change equals the threshold up to a few ulps of the quantities involved (e.g. 1.01 * 1.01 =
+                    # 1.0201 in the reals): "less than" is decided by rounding, on either side of zero.  No demand on
+                    # this condition from here on (its state after this report is not determined either)
+                    self.rounding_sensitive += 1
+                    o.exactable = False
+                    o.undetermined = True
+                # otherwise: the exact decision is the demand (nothing about it hinges on rounding)
         else:
             o.exactable = False
             if prev_f < 0 or prev_f != prev_f:
